@@ -95,6 +95,8 @@ type Val struct {
 	Nsec  int    `json:"nsec,omitempty"`
 	Off   int    `json:"off_min,omitempty"` // zone offset in minutes
 	Bytes []byte `json:"bytes,omitempty"`
+	// NilSlice: an empty byte string given as a nil slice ([]byte(nil)) instead of an empty non-nil one
+	NilSlice bool `json:"nil_slice,omitempty"`
 }
 
 func (v Val) IsNil() bool { return v.Null && (v.Nil || v.UNil) }
@@ -158,9 +160,11 @@ func (v Val) Go() any {
 	case v.K == KTime:
 		rv.Set(reflect.ValueOf(v.Time()))
 	case v.K == KBytes:
-		b := make([]byte, len(v.Bytes))
-		copy(b, v.Bytes)
-		rv.SetBytes(b)
+		if !(v.NilSlice && len(v.Bytes) == 0) {
+			b := make([]byte, len(v.Bytes))
+			copy(b, v.Bytes)
+			rv.SetBytes(b)
+		}
 	}
 	if v.Null {
 		p := reflect.New(t)
